@@ -14,7 +14,9 @@ MUTANTS = [
     ('c10-select-write-filter-uses-isreading', 'C10', P, "            if self.isWriting(sock):\n                self.fire(_write(sock), self.getTarget(sock))", "            if self.isReading(sock):\n                self.fire(_write(sock), self.getTarget(sock))"),
     ('c10-select-preen-does-not-discard', 'C10', P, "                except Exception:\n                    self.discard(sock)", "                except Exception:\n                    pass"),
     # addressing
-    ('c10-addwriter-does-not-set-target', 'C10', P, "        self._write.append(fd)\n        self._targets[fd] = channel", "        self._write.append(fd)\n        self._targets.setdefault(fd, self.parent)"),
+    ('c10-addwriter-does-not-set-target', 'C10', P, "        self._write.append(fd)\n        self._targets[fd] = self._write_targets[fd] = channel", "        self._write.append(fd)\n        self._targets.setdefault(fd, self.parent)"),
+    ('c10-revert-target-follows-remaining-role', 'C10', P, "            if fd in self._read and fd in self._read_targets:\n                self._targets[fd] = self._read_targets[fd]", "            pass"),
+    ('c10-addwriter-keeps-first-target', 'C10', P, "        self._targets[fd] = self._write_targets[fd] = channel", "        self._write_targets[fd] = channel\n        self._targets.setdefault(fd, channel)"),
     ('c10-removereader-deletes-target-while-writer', 'C10', P, "            self._read.remove(fd)\n        if not (fd in self._read or fd in self._write) and fd in self._targets:", "            self._read.remove(fd)\n        if fd in self._targets:"),
     ('c10-gettarget-always-parent', 'C10', P, "        return self._targets.get(fd, self.parent)", "        return self.parent"),
     # discard
@@ -39,7 +41,8 @@ MUTANTS = [
 # Not listed (equivalent for C10's observables, tried and MISSED for that reason):
 # * "_targets not deleted on discard" (X list): every later registration overwrites _targets[fdand nothing is emitted for an
 #   unregistered descriptor, so the stale entry is never read; it is a retention (C12's subject).  Its mirror image "addReader
-#   uses setdefault for the target" is equivalent as long as discard deletes the entry.  The observable slips of the target map
+#   uses setdefault for the target" was equivalent as long as one component held all registrations of a descriptor; since two-component
+#   histories are admitted (seeded change C10-8) it is listed as c10-addwriter-keeps-first-target.  The observable slips of the target map
 #   are listed: c10-addwriter-does-not-set-target, c10-removereader-deletes-target-while-writer, c10-gettarget-always-parent.
 # * "isReading filter removed in Select" alone (X list): select() is only asked about self._read, so whatever it returns as
 #   readable passes the filter; likewise widening the list passed to select() alone is masked by the filter.  The combination
